@@ -509,10 +509,13 @@ def _start_monitor():
             return
 
         def on_start(code, off):
-            fn = code.co_filename
-            if fn.startswith(REPO_SRC):
-                _FUNCS.add(fn[len("/repo/src/") :].replace("/", ".")[:-3] + ":" + code.co_qualname)
-            return mon.DISABLE
+            try:
+                fn = code.co_filename
+                if fn.startswith(REPO_SRC):
+                    _FUNCS.add(fn[len("/repo/src/") :].replace("/", ".")[:-3] + ":" + code.co_qualname)
+                return mon.DISABLE
+            except Exception:  # noqa: BLE001  (interpreter shutdown)
+                return None
 
         mon.register_callback(tid, mon.events.PY_START, on_start)
         mon.set_events(tid, mon.events.PY_START)
